@@ -123,6 +123,10 @@ func c02FamilyRows() []model.Row {
 		// a value that is a prefix of another one which continues with a NUL byte / a low character
 		{"a": "p", "b": "z", "c": "1", "d": "1"},
 		{"a": "p\x00q", "b": "c", "c": "1", "d": "1"},
+		// columns whose NAME is two other names joined by a comma / a blank (a group-by list must not be identified by its
+		// names glued together)
+		{"a": "1", "b": "2", "a,b": "j", "a b": "l"},
+		{"a,b": "k", "c": "1"},
 		{"a": "p\x01", "b": "b", "c": "1", "d": "1"},
 		// short and long values mixed (a comparison on a fixed-length prefix must fall back correctly)
 		{"a": "zz", "b": "aaaaaaaaa", "c": "1", "d": "1"},
@@ -241,6 +245,7 @@ func c02Worker(ctx *rt.Ctx, job *rt.Job) []*rt.Violation {
 		gls = append(gls, lists([]string{"a", "b", "p", "q"}, 1, 2)...)
 		// names that differ from a real column only in case are unknown columns
 		gls = append(gls, []string{"A"}, []string{"a", "B"}, []string{"P", "q"}, []string{"D", "d"})
+		gls = append(gls, []string{"a,b"}, []string{"a", "b"}, []string{"a b"}, []string{"a,b", "c"}, []string{"a", "b,c"}, []string{"a", "b", "c"}, []string{"a,b", "a b"})
 		exprs = append(exprs, model.Eq("a", "b"), model.Not(model.Eq("p", "p")))
 		exprs = append(exprs, model.Eq("d", "2"), model.Not(model.Eq("c", "1")))
 	} else if a.Wide {
